@@ -27,7 +27,7 @@ EXPLANATION = (
     "sets of the unknown/cancelled arms are empty; subclasses of Int32StringReceiver bound MAX_LENGTH and always "
     "drop the connection in lengthLimitExceeded."
 )
-SHARED = [('C10', ['R2'], 'a request taken out of the table while the queue is being flushed is not written: its id is free and may be reused'), ('C10', ['R1'], 'requests kept across a reconnect stay in the ordered table that close() drains and fails'), ('C10', ['R5', 'R6'], 'a request accepted by the broker client is eventually written or failed (connector hygiene, closed gate)')]
+SHARED = [('C10', ['R2'], 'a request taken out of the table while the queue is being flushed is not written: its id is free and may be reused'), ('C10', ['R1'], 'requests kept across a reconnect stay in the ordered table that close() drains and fails'), ('C10', ['R5', 'R6', 'R7'], 'a request accepted by the broker client is eventually written or failed (connector hygiene, closed gate, written at once on a live connection)')]
 ASSUMPTIONS = ["Twisted Int32StringReceiver reassembles frames and calls lengthLimitExceeded for oversized prefixes",
                "struct.calcsize gives the wire size of big-endian standard formats"]
 BC = "brokerclient:_KafkaBrokerClient"
@@ -210,6 +210,18 @@ def run(ctx):
         r.check(not over, "_protocol:%s#framing-not-overridden" % c.name, "the protocol class overrides %s of the length-prefixed receiver" % over,
                 "afkak/_protocol.py:%d" % c.node.lineno, "bytes of a reply to a live request are dropped or re-framed: that request is neither "
                 "resolved nor is its timer released; it is re-sent although it was answered")
+        # the length prefix stays the receiver's own: four bytes, unsigned, network order - read as a signed number a prefix with
+        # the top bit set passes the MAX_LENGTH test as a negative length and the parse position moves backwards
+        prefix_bad = []
+        for x in prog.mro(c):
+            for an_, okv_ in (("structFormat", ("!I", ">I")), ("prefixLength", (4,))):
+                if an_ in x.class_attrs:
+                    v_ = x.class_attrs[an_]
+                    if not (isinstance(v_, ast.Constant) and v_.value in okv_ and type(v_.value) is type(okv_[0])):
+                        prefix_bad.append("%s.%s = %s" % (x.name, an_, norm(v_)))
+        r.check(not prefix_bad, "_protocol:%s#length-prefix-unsigned-int32" % c.name, "the frame length prefix is redefined: %s" % prefix_bad,
+                "afkak/_protocol.py:%d" % c.node.lineno, "a prefix of 0x80000000 or more is taken for a negative length: not refused, the "
+                "connection is not terminated, dataReceived raises or spins")
         ml = None
         for x in prog.mro(c):
             if "MAX_LENGTH" in x.class_attrs:
